@@ -210,12 +210,26 @@ class Run:
         self.prot, self.tr = net.make_sd(self.h.loop, ("10.0.7.1", 30490), timings=tm)
         self.insts = []
         self.ref_opts = []
+        import zlib
+        # the options are part of what an offer must carry: the same ids are configured with different endpoints (port,
+        # UDP / TCP, a second option run) from scenario to scenario, so an offer built for an earlier, equal-looking
+        # service description of this process would show
+        variant = zlib.crc32(repr((sorted(cfg.items(), key=str), [(t, r, sorted(a.items(), key=str)) for t, r, a in script])).encode())
+        self.ref_opts2 = []
         for i in range(ninst):
             c = INSTS[i]
-            opt = H.IPv4EndpointOption(address=ipaddress.IPv4Address("10.0.7.1"), l4proto=H.L4Protocols.UDP, port=c["port"])
-            svc = C.Service(c["sid"], c["iid"], c["maj"], c["minor"], options_1=(opt,), eventgroups=frozenset({1}))
+            v = (variant >> (4 * i)) & 15
+            port = c["port"] + 10 * (v & 3)
+            proto = (H.L4Protocols.UDP, H.L4Protocols.TCP)[(v >> 2) & 1]
+            opt = H.IPv4EndpointOption(address=ipaddress.IPv4Address("10.0.7.1"), l4proto=proto, port=port)
+            o2, r2 = (), []
+            if v & 8:
+                o2 = (H.SOMEIPSDLoadBalancingOption(priority=1 + (v & 3), weight=7),)
+                r2 = [refwire.opt_loadbal(1 + (v & 3), 7)]
+            svc = C.Service(c["sid"], c["iid"], c["maj"], c["minor"], options_1=(opt,), options_2=o2, eventgroups=frozenset({1}))
             self.insts.append(S.ServiceInstance(svc, S.ServerServiceListener(), self.prot.announcer, tm))
-            self.ref_opts.append([refwire.ep4("10.0.7.1", c["port"])])
+            self.ref_opts.append([refwire.ep4("10.0.7.1", port, proto=int(proto))])
+            self.ref_opts2.append(r2)
         self.qlog = []  # ('q', seq, t, sid, iid, ttl, remote) | ('start', k) | ('ann_start',)
         self.raised = []
         ann = self.prot.announcer
@@ -328,7 +342,7 @@ def judge(ctx, cfg, ninst, script, horizon, seed, replay, tags=()):
                 continue
             c = INSTS[k]
             kind = "stop" if e["ttl"] == 0 else "offer"
-            if e["maj"] != c["maj"] or e["val"] != c["minor"] or (kind == "offer" and (e["ttl"] != cfg["ttl"] or e["o1"] != run.ref_opts[k] or e["o2"])):
+            if e["maj"] != c["maj"] or e["val"] != c["minor"] or (kind == "offer" and (e["ttl"] != cfg["ttl"] or e["o1"] != run.ref_opts[k] or e["o2"] != run.ref_opts2[k])):
                 bad("offer-content-differs-from-configuration", instance=k, entry=e, t=msg["t"])
             obs[k].append(dict(t=msg["t"], kind=kind, dst=msg["dst"], ttl=e["ttl"]))
 
